@@ -26,8 +26,7 @@ class Outcome:
         self.refuted = []   # list of (lo_ord tuple, hi_ord tuple, info)
         self.unknown = []   # point boxes neither proved nor refuted
         self.max_level_size = 0
-        self.region_refuted = 0   # refuted boxes inside the caller's named region (tallied, not capped)
-        self.region_example = None
+        self.region_refuted = {}  # region name -> [count, first example]: refuted boxes inside a named region (tallied, not capped)
 
 
 def probe_points(l, h):
@@ -74,10 +73,10 @@ def refine(lo, hi, judge, max_boxes=6_000_000, chunk=400_000, max_refuted=20, pr
             if refuted.any():
                 for i in np.nonzero(refuted)[0]:
                     lo_i, hi_i = tuple(int(v) for v in l[i]), tuple(int(v) for v in h[i])
-                    if region is not None and region(lo_i, hi_i):
-                        out.region_refuted += 1
-                        if out.region_example is None:
-                            out.region_example = describe(i) if describe else ""
+                    rg = region(lo_i, hi_i) if region is not None else None
+                    if rg:
+                        ent = out.region_refuted.setdefault(rg, [0, describe(i) if describe else ""])
+                        ent[0] += 1
                         continue
                     if len(out.refuted) < max_refuted:
                         out.refuted.append((lo_i, hi_i, describe(i) if describe else ""))
